@@ -96,20 +96,28 @@ VF_SUB(rabin_mask_chain_opens_to_type, 500, 12000) {
   d << "]"; ctx.desc << d.str();
   ctx.label("rabin"); ctx.label("k=" + std::to_string(k)); ctx.label("chain=" + std::to_string(chain));
   if (chain >= 1 && k >= 2) { std::ostringstream cx; cx << c; ctx.nontrivial(d.str() + cx.str().substr(0, 64)); }
-  for (size_t i = 0; i < k && !ctx.failed; i++) {
-    TMCG_CardSecret cs(k, w);
-    tmcg.TMCG_SelfCardSecret(c, cs, *P.sk[i], i);
-    bool allok = true;
-    for (size_t j = 0; j < k && allok; j++) {
+  // a second card of another type: the opening accumulator (a TMCG_CardSecret) is a plain object that applications
+  // reuse from card to card, so every player first opens the other card into the SAME accumulator (or into the secret
+  // the card was created with) and then the card under test
+  size_t T1 = ctx.c.index(maxt); TMCG_Card c2(k, w); TMCG_CardSecret creation2(k, w); tmcg.TMCG_CreatePrivateCard(c2, creation2, P.ring, ctx.c.index(k), T1);
+  int reuse = (int)ctx.c.index(3); d << " accumulator=" << (reuse == 0 ? "fresh" : reuse == 1 ? "reused-after-other-card" : "creation-secret-of-other-card"); ctx.label(reuse == 0 ? "fresh-accumulator" : "reused-accumulator");
+  auto open_into = [&](const TMCG_Card &card, TMCG_CardSecret &cs, size_t i, size_t expect, const char *which) -> bool {
+    tmcg.TMCG_SelfCardSecret(card, cs, *P.sk[i], i);
+    for (size_t j = 0; j < k; j++) {
       if (j == i) continue;
       Duplex dx; bool ok = false;
       dx.run(ctx.c.seed64(), ctx.c.seed64(),
-        [&](std::iostream &io) { SchindelhauerTMCG pt(kappa, k, w); pt.TMCG_ProveCardSecret(c, *P.sk[j], j, io, io); },
-        [&](std::iostream &io) { ok = tmcg.TMCG_VerifyCardSecret(c, cs, P.ring.keys[j], j, io, io); });
-      if (!ok || dx.a_threw || dx.b_threw) { allok = false; ctx.fail("open/rabin/honest-share-proof-refused", "verifier " + std::to_string(i) + " refused prover " + std::to_string(j) + (dx.stalled() ? " (stalled)" : "") + " " + dx.a_what + dx.b_what + ": " + d.str()); }
+        [&](std::iostream &io) { SchindelhauerTMCG pt(kappa, k, w); pt.TMCG_ProveCardSecret(card, *P.sk[j], j, io, io); },
+        [&](std::iostream &io) { ok = tmcg.TMCG_VerifyCardSecret(card, cs, P.ring.keys[j], j, io, io); });
+      if (!ok || dx.a_threw || dx.b_threw) { ctx.fail("open/rabin/honest-share-proof-refused", "verifier " + std::to_string(i) + " refused prover " + std::to_string(j) + (dx.stalled() ? " (stalled)" : "") + " " + dx.a_what + dx.b_what + ": " + d.str()); return false; }
     }
-    if (!allok) break;
     size_t t = tmcg.TMCG_TypeOfCard(cs);
-    if (t != T0) ctx.fail("open/rabin/wrong-type", "player " + std::to_string(i) + " opened type " + std::to_string(t) + ": " + d.str());
+    if (t != expect) { ctx.fail(std::string("open/rabin/wrong-type") + (reuse ? "/reused-accumulator" : ""), "player " + std::to_string(i) + " opened the " + which + " card to type " + std::to_string(t) + " instead of " + std::to_string(expect) + ": " + d.str()); return false; }
+    return true; };
+  ctx.desc.str(""); ctx.desc << d.str();
+  for (size_t i = 0; i < k && !ctx.failed; i++) {
+    if (reuse == 0) { TMCG_CardSecret cs(k, w); open_into(c, cs, i, T0, "tested"); }
+    else if (reuse == 1) { TMCG_CardSecret cs(k, w); if (open_into(c2, cs, i, T1, "other")) open_into(c, cs, i, T0, "tested"); }
+    else { TMCG_CardSecret cs(creation2); open_into(c, cs, i, T0, "tested"); }
   }
 }
